@@ -45,6 +45,8 @@ def measure(c, rels, rng):
     elif c["layers"] == "core_shell":
         sc = Sphere(n=[m * nmed, (1.1 + (0.02j if not isinstance(m, float) else 0)) * nmed],
                     r=[0.6 * r, r], center=(0, 0, 0))
+    elif c["layers"] == "lossy_core_3":
+        sc = Sphere(n=[m * nmed, 1.3 * nmed, 1.1 * nmed], r=[0.5 * r, 0.8 * r, r], center=(0, 0, 0))
     else:
         sc = Sphere(n=[1.3 * nmed, m * nmed, 1.1 * nmed], r=[0.3 * r, 0.7 * r, r], center=(0, 0, 0))
     opts = dict(medium_index=nmed, illum_wavelen=wl)
@@ -80,6 +82,34 @@ def measure(c, rels, rng):
     ev["mb_multisphere"] = EXACT
     geo = math.pi * r * r
     if "rayleigh" in rels:
+        if c["layers"] == "homogeneous":
+            eps = complex(m) ** 2
+        else:
+            # quasi-static effective permittivity of a layered sphere, built outward one shell at a time
+            ns_ = [complex(v) / nmed for v in sc.n]
+            rs_ = list(sc.r)
+            eps = ns_[0] ** 2
+            for i_ in range(1, len(ns_)):
+                es, f = ns_[i_] ** 2, (rs_[i_ - 1] / rs_[i_]) ** 3
+                eps = es * (eps * (1 + 2 * f) + 2 * es * (1 - f)) / (eps * (1 - f) + es * (2 + f))
+        pol_ = (eps - 1) / (eps + 2)
+        real_all = all(abs(complex(v).imag) == 0 for v in np.atleast_1d(sc.n))
+        xr_, sca_r, ab_r, geo_r = x, sca, ab, geo
+        if c["layers"] != "homogeneous":
+            # layered spheres: the formula is compared at x = 5e-3 (same shape, five times larger): at 1e-3
+            # the layered recursion has lost its precision (open finding, 1e-3 relative), at 5e-3 both the
+            # recursion (1e-6) and the O(x^2) corrections (3e-5) are far below the tolerance
+            xr_ = 5.0 * x
+            big = Sphere(n=sc.n, r=[5.0 * v for v in sc.r], center=(0, 0, 0))
+            csr = calc_cross_sections(big, illum_polarization=pol, **opts).values
+            sca_r, ab_r, geo_r = float(csr[0]), float(csr[1]), 25.0 * geo
+        q_sca = 8.0 / 3.0 * xr_ ** 4 * abs(pol_) ** 2
+        q_abs = 4 * xr_ * pol_.imag if not real_all else 0.0
+        dd = abs(sca_r / geo_r - q_sca) / q_sca
+        if q_abs > 0:
+            dd = max(dd, abs(ab_r / geo_r - q_abs) / q_abs)
+        ev["mb_rayleigh"] = quant.mb(dd)
+    if False:
         pol_ = (m * m - 1) / (m * m + 2)
         q_sca = 8.0 / 3.0 * x ** 4 * abs(pol_) ** 2
         q_abs = 4 * x * pol_.imag if not isinstance(m, float) else 0.0
@@ -97,7 +127,7 @@ def measure(c, rels, rng):
 def run(ctx):
     quick = ctx.tier == "quick"
     rng = random.Random(ctx.seed)
-    ctx.rule = ("TLC enumerates 5 relative-index x 7 size x 3 medium x 3 layering x 4 polarisation classes "
+    ctx.rule = ("TLC enumerates 5 relative-index x 7 size x 3 medium x 4 layering x 4 polarisation classes "
                 "and the relations applicable to each; quick: every (index, size, layering) with rotating "
                 "medium/polarisation, thorough: all 1260 classes; distinct = class; non-trivial = size >= unit "
                 "or absorbing")
